@@ -2,7 +2,9 @@
   MellonModel.TimeNN — within-time-point nearest-neighbour distances and sampling normalisation
   (property C14).
 
-  Mirrors, as they are in /repo NOW:
+  Mirrors the code of /repo AFTER the two C14 repairs (fix: every sized normalize target is
+  length-checked and NumPy arrays / tuples are accepted like lists; fix: n_obs of a dict target
+  averages only the time points present in the data):
     * `mellon.parameters.compute_nn_distances_within_time_points` (+ `_get_target_cell_count`,
       `compute_nn_distances`/`compute_distances`: KD/Ball tree = exact Euclidean nearest *other* point),
     * `mellon.parameter_validation.validate_normalize_parameter`,
@@ -38,29 +40,25 @@ inductive NNErr where
   | dLength             -- ValueError "If `d` (length=…) is a vector then it needs to have one value per cell"
   | dZero               -- ZeroDivisionError: `1 / d` with a Python scalar `d == 0`
   | singleton           -- ValueError "Insufficient data: Only 1 sample(s) found at time point"
-  | indexError          -- IndexError: tuple / NumPy-array target shorter than the number of time points
-  | unrecognized        -- ValueError "Unrecognized type for 'normalize'" (compute_average_cell_count)
+  | indexError          -- IndexError of `normalize[rank]` (unreachable after the length check: `index_error_unreachable`)
   deriving DecidableEq, Repr, Inhabited
 
 def NNErr.cls : NNErr → String
   | .timex e => e.cls
   | .noCells | .dZero => "Internal:ZeroDivisionError"
-  | .missingKey | .wrongLength | .dNegative | .dLength | .singleton | .unrecognized => "ValueError"
+  | .missingKey | .wrongLength | .dNegative | .dLength | .singleton => "ValueError"
   | .dNone => "TypeError"
   | .indexError => "Internal:IndexError"
 
 /-! ### arguments -/
 
-/-- Sequence-like normalisation targets.  `validate_normalize_parameter` and
-    `compute_average_cell_count` test `isinstance(normalize, (list, jax.numpy.ndarray))`:
-    tuples and NumPy arrays pass unvalidated. -/
+/-- Sequence-like normalisation targets: every sized, non-bool, non-dict object.  Since the repair
+    all four forms are treated alike (`validate_normalize_parameter` tests `hasattr(normalize,
+    "__len__")`, `compute_average_cell_count` accepts lists, tuples, JAX arrays and anything with
+    `__array__`); the form is kept so that the theorems quantify over it. -/
 inductive SeqKind where
   | list | jaxArray | tuple | numpyArray
   deriving DecidableEq, Repr, Inhabited
-
-def SeqKind.recognized : SeqKind → Bool
-  | .list | .jaxArray => true
-  | .tuple | .numpyArray => false
 
 /-- The `normalize` / `normalize_per_time_point` argument. -/
 inductive NormArg (α θ : Type) where
@@ -141,8 +139,8 @@ def validateNormalize (norm : NormArg α θ) (uniq : List θ) : Except NNErr Uni
   match norm with
   | .dict es =>
     if uniq.all (fun t => es.any (fun e => e.1 = t)) then pure () else throw .missingKey
-  | .seq k vs =>
-    if k.recognized && vs.length ≠ uniq.length then throw .wrongLength else pure ()
+  | .seq _ vs =>
+    if vs.length ≠ uniq.length then throw .wrongLength else pure ()
   | _ => pure ()
 
 /-- `validate_float_or_iterable_numerical(d, optional=False, positive=True)` and the length test. -/
@@ -240,13 +238,25 @@ def lsum : List α → α
   | [] => 0
   | a :: as => a + lsum as
 
-/-- `compute_average_cell_count(x, normalize)`. -/
+/-- The dict entry of a time stamp (`normalize[t.item()]`; `0` for a missing key, never read:
+    the dict is validated first). -/
+def dictVal (es : List (θ × α)) (t : θ) : α :=
+  match es.find? (fun e => e.1 = t) with
+  | some e => e.2
+  | none => 0
+
+/-- `compute_average_cell_count(x, normalize)`: the target is validated first; a dict is averaged
+    over the time points present in `x` only. -/
 def avgCellCount (times : List θ) (norm : NormArg α θ) : Except NNErr α :=
-  let nu : α := ((uniqueSorted times).length : α)
-  match norm with
-  | .off | .avg => pure ((times.length : α) / nu)
-  | .dict es => pure (lsum (es.map (·.2)) / nu)
-  | .seq k vs => if k.recognized then pure (lsum vs / (vs.length : α)) else throw .unrecognized
+  let uniq := uniqueSorted times
+  let nu : α := (uniq.length : α)
+  match validateNormalize norm uniq with
+  | .error e => throw e
+  | .ok _ =>
+    match norm with
+    | .off | .avg => pure ((times.length : α) / nu)
+    | .dict es => pure (lsum (uniq.map (dictVal es)) / nu)
+    | .seq _ vs => pure (lsum vs / (vs.length : α))
 
 /-- `util.mle(nn_distances, d) = gammaln(d/2 + 1) − (d/2)·log π − d·log(nn_distances)`. -/
 def mleNN (r d : α) : α := lgamma (d / 2.0 + 1) - (d / 2.0) * log Transc.pi - d * log r
